@@ -398,6 +398,25 @@ fn tail_has_unbounded_depth_source(seq: &[Node]) -> bool {
     tail.iter().any(|n| contains_tree(std::slice::from_ref(*n)) || contains_open_crossing_repetition(std::slice::from_ref(*n)))
 }
 
+/// True if the encoder's mirror (reference language with the recorded deviations D1 and D4) is
+/// defined for this single expression and answers differently from the implementation on one of
+/// the paths. Combinators and expressions the mirror does not define are not judged (false).
+pub fn mirror_disagrees(asts: &[Seq], paths: &[&str], is_match: &dyn Fn(&str) -> bool) -> bool {
+    if asts.len() != 1 {
+        return false;
+    }
+    let dev = refmodel::lang::Deviations { d1: true, d2: false, d3: false, d4: true };
+    let refmodel::lang::Spec::Specified(r) = refmodel::lang::reference(&asts[0], &dev) else { return false };
+    let Ok(d) = Dfa::new(&r.regex) else { return false };
+    paths.iter().any(|p| {
+        // the unspecified clauses of the reference (U2 / U3 rootedness) are not judged
+        if (r.u2 && p.starts_with('/')) || (r.u3 && !p.starts_with('/')) || p.contains("//") {
+            return false;
+        }
+        d.accepts(p) != is_match(p)
+    })
+}
+
 /// Known-finding classifier for C09/C03 (DESIGN §6.1): identifies the recorded defect classes of
 /// the exhaustiveness analysis by the witness and by the structure of the expression.
 pub fn c09_class(asts: &[Seq], ancestor: &str) -> Option<String> {
@@ -453,7 +472,14 @@ fn c09_check_program(
                 rep.note(format!("C09: model witness {:?} for {} not reproduced by the API", q, what));
             },
             Some(p) => {
-                let class = c09_class(asts, &p);
+                let mut class = c09_class(asts, &p);
+                // the recorded findings are defects of the exhaustiveness ANALYSIS: the language is
+                // the one the (recorded) encoder defines. A witness on which the implementation
+                // answers differently from the encoder's mirror comes from a changed language and
+                // is not attributed to them.
+                if class.is_some() && mirror_disagrees(asts, &[p.as_str(), q.as_str()], is_match) {
+                    class = None;
+                }
                 if seen_classes.contains(&class) {
                     continue;
                 }
@@ -671,6 +697,7 @@ fn c10_check_program(
         }
     }
     bump(c, "depth_checked", 1);
+    let mut mirror: Option<Option<(Dfa, bool, bool)>> = None;
     for (i, comps) in witnesses {
         let p = ex.access(i);
         let a = is_match(&p);
@@ -691,6 +718,26 @@ fn c10_check_program(
         }
         else {
             None
+        };
+        // the recorded findings are defects of the depth ANALYSIS; a witness on which the
+        // implementation answers differently from the encoder's mirror comes from a changed
+        // language and is not attributed to them
+        let class = if class.is_some() && patterns.len() == 1 {
+            let m = mirror.get_or_insert_with(|| {
+                let dev = refmodel::lang::Deviations { d1: true, d2: false, d3: false, d4: true };
+                match syntax::parse(patterns[0]).ok().map(|a| refmodel::lang::reference(&a, &dev)) {
+                    Some(refmodel::lang::Spec::Specified(r)) => Dfa::new(&r.regex).ok().map(|d| (d, r.u2, r.u3)),
+                    _ => None,
+                }
+            });
+            let disagrees = m.as_ref().map_or(false, |(d, u2, u3)| {
+                let unjudged = (*u2 && p.starts_with('/')) || (*u3 && !p.starts_with('/')) || p.contains("//");
+                !unjudged && d.accepts(&p) != is_match(&p)
+            });
+            if disagrees { None } else { class }
+        }
+        else {
+            class
         };
         rep.alarm(Alarm {
             class,
